@@ -625,6 +625,35 @@ class Env:
         self.module, self.func, self.vars = module, func, {}
 
 
+def _full_turn(a):
+    """2*pi*c if a == c * f(...) with f an inverse trigonometric function (an angle in radians scaled by the constant c)"""
+    try:
+        if not (len(a.den) == 1 and P.ONE_M in a.den) or len(a.num) != 1:
+            return None
+        (mono, co), = a.num.items()
+        angle = [x for x, e in mono if P.atom(x).kind == "fn" and P.atom(x).name in ("arctan2", "arctan", "arcsin", "arccos")]
+        if len(angle) != 1 or dict(mono)[angle[0]] != 1:
+            return None
+        rest = Rat({tuple((x, e) for x, e in mono if x != angle[0]): co}) / Rat(dict(a.den))
+        for x, e in mono:
+            if x != angle[0] and not (P.atom(x).kind == "sym" and P.atom(x).name == "pi"):
+                return None
+        return rest * 2 * P.sym("pi")
+    except Exception:
+        return None
+
+
+def _close_const(u, v):
+    """both are numeric constants (possibly through pi) that agree to 1e-9 relative"""
+    import math
+    try:
+        val = lambda at: math.pi
+        x, y = P.evalf(u, val), P.evalf(v, val)
+        return abs(x - y) <= 1e-9 * max(abs(x), abs(y), 1.0) and all(P.atom(t).name == "pi" for r_ in (u, v) for mono in list(r_.num) + list(r_.den) for t, _ in mono)
+    except Exception:
+        return False
+
+
 class Interp:
     MAX_DEPTH = 8
     MAX_LOOP = 128
@@ -1472,7 +1501,14 @@ class Interp:
         if isinstance(op, ast.Div) and isinstance(a, int) and isinstance(b, int) and not isinstance(a, bool):
             return P.const(Fraction(a, b))
         if isinstance(op, ast.Mod) and isinstance(a, Rat) and a.const() is None:
-            self.assume("x % (2*pi) treated as x (only used as an argument of periodic functions)")
+            # x % m is x up to whole turns only when m is one full turn *in the unit x is expressed in*:
+            # for x = c * <inverse trigonometric value> the turn is 2*pi*c (c = 1: radians, c = 180/pi: degrees)
+            turn = _full_turn(a)
+            m = b if isinstance(b, Rat) else P.const(Fraction(b).limit_denominator(10 ** 12)) if isinstance(b, (int, float)) else None
+            if turn is not None and m is not None and not (turn - m).is_zero() and not _close_const(turn, m):
+                self.mod_mismatch = getattr(self, "mod_mismatch", []) + [(a, m, turn)]
+                return P.fn("mod", a, m)
+            self.assume("x % (one full turn) treated as x (only used as an argument of periodic functions)")
             return a
         if isinstance(op, ast.Pow) and is_arr(a) and a.ndim == 2 and a.shape[0] == a.shape[1] and a.shape[0] > 1 \
                 and not is_arr(b):
